@@ -13,6 +13,7 @@ import glob
 import itertools
 import json
 import os
+import re
 from fractions import Fraction
 
 from vlib import c09_impl as ci
@@ -47,6 +48,10 @@ THEOREMS = [
     "C09_imp_refused",
     "C09_imp_data_once",
     "C09_imp_shared_tree_refuted",
+    "C09_slots_others",
+    "C09_slots_complete",
+    "C09_slot_needed",
+    "C09_cell_keywords",
 ]
 
 CLASSES = ci.CLASSES
@@ -86,6 +91,21 @@ def small_texts():
     out.append(SMALL.format(c1="imp:n,p=1 imp:e=2", c2="imp:n=1 imp:p,e=3", c3="imp:n,p,e=0", data="").replace("mode n p", "mode n p e"))
     out.append(SMALL.format(c1="", c2="vol=2", c3="", data="imp:n,p,e 1 2 0\n").replace("mode n p", "mode n p e"))
     out.append(SMALL.format(c1="", c2="", c3="u=3", data="imp:n,e 1 1 0\nimp:p 2 2 0\n").replace("mode n p", "mode n p e"))
+    return out
+
+
+def small_texts_other():
+    """cells that carry OTHER parameters (every keyword of OTHER_PARAMS once, in three groups of four) next to per-cell
+    data given in the data block / on the cards / mixed"""
+    out = []
+    for g in range(0, len(OTHER_PARAMS), 4):
+        ks = []
+        for kw, numbered, parts, values in OTHER_PARAMS[g:g + 4]:
+            ks.append(kw + ("1" if numbered else "") + (":n" if parts else "") + "=" + values[0])
+        out.append(SMALL.format(c1=ks[0] + " " + ks[1], c2=ks[2], c3=ks[3],
+                                data="imp:n 1 1 0\nimp:p 2 1 0\nvol 3 j 2.5\nu 2 5 2\nlat j 1\nfill j 2\n"))
+        out.append(SMALL.format(c1=f"imp:n=1 {ks[0]} imp:p=2 vol=3 u=2", c2=f"{ks[1]} imp:n,p=1 fill=2 {ks[2]} lat=1", c3=f"imp:n=0 imp:p=0 {ks[3]}", data=""))
+        out.append(SMALL.format(c1=f"{ks[3]} vol=3", c2=f"{ks[0]}", c3=f"{ks[2]} vol=1.5 {ks[1]}", data="imp:n,p 1 1 0\nu 2 2 j\nfill j j 2\n"))
     return out
 
 
@@ -178,9 +198,45 @@ def shape_importances(rng, gp):
     return kind + ":" + str(gp["imp_share"])
 
 
+# every OTHER parameter a cell card may carry (MCNP manual, cell parameters; the lexer's cell keywords minus the five
+# per-cell classes, LIKE/BUT and TRCL, which genprob has a feature of its own for): MontePy keeps them in the cell's
+# parameters tree only, next to the nodes of the five modifier classes the writer walks.  (keyword, numbered, particles, values)
+OTHER_PARAMS = [("nonu", False, False, ["0", "1", "2"]), ("unc", False, True, ["0", "1"]), ("tmp", None, False, ["2.53e-8", "3.1e-8"]),
+                ("pwt", False, False, ["1", "-1"]), ("ext", False, True, ["0.5", "0"]), ("fcl", False, True, ["1", "0.5"]),
+                ("wwn", True, True, ["0.5", "-1"]), ("dxc", True, True, ["0.5", "1"]), ("pd", True, False, ["0.5", "1"]),
+                ("elpt", False, True, ["1e-3", "1e-2"]), ("cosy", False, False, ["1", "2"]), ("bflcl", False, False, ["1", "0"])]
+
+
+def other_param(rng, mode, kw=None):
+    """one other cell parameter (key, value): numbered / with particle designators where the keyword takes them"""
+    kw, numbered, parts, values = rng.choice(OTHER_PARAMS) if kw is None else [r for r in OTHER_PARAMS if r[0] == kw][0]
+    key = kw
+    if numbered or (numbered is None and rng.random() < 0.5):
+        key += str(rng.randint(1, 2))
+    if parts:
+        ps = [rng.choice(mode)] if rng.random() < 0.75 or len(mode) < 2 else rng.sample(mode, 2)
+        key += ":" + ",".join(ps)
+    return key, rng.choice(values)
+
+
+def shape_other_params(rng, gp):
+    """cells that carry OTHER parameters next to (or instead of) their per-cell data, whichever block gives those:
+    in half of the problems every cell gets 0-2 of them (keys distinct on one card)"""
+    if rng.random() < 0.5:
+        return
+    for c in gp["cells"]:
+        extra = dict(c.get("extra_params") or [])
+        for _ in range(rng.choice([0, 1, 1, 2])):
+            k, v = other_param(rng, gp["mode"])
+            extra.setdefault(k, v)
+        if extra:
+            c["extra_params"] = sorted(extra.items())
+
+
 def gen_problem(rng):
     gp = genprob.generate(rng, features=FEATURES)
     shape_importances(rng, gp)
+    shape_other_params(rng, gp)
     style = "plain" if rng.random() < 0.85 else "random"
     limit = 128 if rng.random() < 0.8 else 80
     text = genprob.render(gp, rng, limit, style)
@@ -218,6 +274,16 @@ def gen_cases(chk):
                 continue
             # the first six shapes under all 32 flag vectors; the importance shapes under 8 (IMP x VOL x the rest)
             for fl in (ALL_FLAGS if nshape < 6 else few_flags):
+                cases.append({"text": text, "limit": 128, "ops": [["flags", fl], ["write"]] + ops + [["write"]], "src": "small"})
+                nsmall += 1
+    # 2b. the same for cells that carry OTHER parameters: 9 shapes x 12 of the operations x 8 flag vectors (IMP x U x the rest)
+    u_flags = [[i, b, u, b, b] for i in (False, True) for u in (False, True) for b in (False, True)]
+    for text in small_texts_other():
+        for ops in alphabet:
+            if any(o[0] == "imp" and o[2] == "e" for o in ops) or (ops and ops[0][0] in ("reorder", "imp_all", "vol_calc", "observe", "lat", "del_vol")) or ops == [["remove", 1]]:
+                continue
+            ops = [o if o[0] != "append" else ["append", dict(o[1], imp={k: v for k, v in o[1]["imp"].items() if k != "e"})] for o in ops]
+            for fl in u_flags:
                 cases.append({"text": text, "limit": 128, "ops": [["flags", fl], ["write"]] + ops + [["write"]], "src": "small"})
                 nsmall += 1
     # 3. MontePy's own fixtures: every flag vector, then the opposite vector, then back (switching back and forth)
@@ -323,7 +389,21 @@ def model_op(op, pre):
     return op
 
 
-def build_model_case(case, ri):
+def params_of_den(den_in):
+    """the parameters of every cell card of the INPUT as the Spec reads them, in the shape of MontePy's parameters tree:
+    [key (prefix + number + particles, lower case, no modifier), prefix]; one more, empty, list for a cell made by Cell()"""
+    out = []
+    for c in den_in["cells"]:
+        ps = []
+        for key, _ in c["params"]:
+            k = "".join(str(key).lower().split()).lstrip("*")
+            m = re.match(r"[a-z]+", k)
+            ps.append([k, m.group(0) if m else k])
+        out.append(ps)
+    return out + [[]]
+
+
+def build_model_case(case, ri, den_in=None):
     """-> (model case, number of steps that can be compared) or None"""
     if ri.get("read") != "ok":
         return None
@@ -337,7 +417,10 @@ def build_model_case(case, ri):
         if "state" in st:
             pre = st["state"]
         n += 1
-    return {"state": model_state_json(ri["state0"]), "ops": ops}, n
+    mc = {"state": model_state_json(ri["state0"]), "ops": ops}
+    if den_in is not None and spec.well_formed(den_in)[0] and len(den_in["cells"]) == len(ri["state0"]["cells"]):
+        mc["params"] = params_of_den(den_in)
+    return mc, n
 
 
 def canon_state(s, model):
@@ -568,8 +651,21 @@ def compare_case(case, ri, dens, rm, nsteps):
         return (0, f"model driver: {rm}")
     k = 0
     trees = True  # tree identity is compared until a write raises (what an error leaves behind is not modelled)
+    want_slots = None
+    if isinstance(rm.get("slots"), list) and len(rm["slots"]) == len(ri["state0"]["cells"]) + 1:
+        # which classes have a node in the parameters tree of each cell: model (_parse_keyword_modifiers over the
+        # parameters the Spec reads on the card) vs the live tree; a cell made by Cell() has no parameters
+        want_slots = {c["number"]: sorted(m["slots"]) for c, m in zip(ri["state0"]["cells"], rm["slots"])}
+        blank = sorted(rm["slots"][-1]["slots"])
+        for c in ri["state0"]["cells"]:
+            if c["slots"] != want_slots[c["number"]]:
+                return (0, f"after reading: cell {c['number']} has a node in its parameters tree for {c['slots']}, model: {want_slots[c['number']]}")
     for j in range(nsteps):
         op, st, sm = case["ops"][j], ri["steps"][j], rm["steps"][j]
+        if want_slots is not None and "state" in st:
+            for c in st["state"]["cells"]:
+                if c["slots"] != want_slots.get(c["number"], blank):
+                    return (j, f"after {op[0]}: cell {c['number']} has a node in its parameters tree for {c['slots']}, model: {want_slots.get(c['number'], blank)}")
         if op[0] == "write" and st["out"] != "ok":
             trees = False
         if op[0] == "write":
@@ -612,13 +708,16 @@ def run(chk):
         "a case is a generated / fixture / hand-made MCNP file (per-cell data in the cell block, in the data block or mixed "
         "per class) read by MontePy, a valid API history (cell append / remove / move / reorder, importance, volume, "
         "universe, fill, lattice, not_truncated, allow_mcnp_volume_calc edits, print_in_data_block flags) and one or more "
-        "write_to_file; generated problems and small shapes are run under ALL 32 flag vectors. Every written file is read "
+        "write_to_file; generated problems and small shapes are run under ALL 32 flag vectors; in half of the generated problems "
+        "and in 9 small shapes the cell cards carry OTHER cell parameters as well (every cell keyword: NONU, UNC, TMP, PWT, EXT, "
+        "FCL, WWN, DXC, PD, ELPT, COSY, BFLCL; numbered / with particle designators). Every written file is read "
         "by the Spec reader and judged. Non-trivial: the case reads, and at least one write has a per-cell datum in the "
         "data block or follows a history operation; distinct = distinct canonical JSON."
     )
     chk.assumptions = [
         "syntax trees, paddings, number formatting and shortcut re-compression are not modelled (C05/C08/C10): model and real file are compared as cards (class, particle, value / expanded vector, trailing jumps stripped, isclose 1e-9)",
         "a datum is a value the cell HOLDS: for a particle of MODE that `particle in cell.importance` denies, the getter's 0.0 is a default, not a datum",
+        "the parameters of a cell card given to the model's _parse_keyword_modifiers are the ones the Spec reader finds on the card of the INPUT (key = prefix + number + particles, lower case); compared with the live parameters tree after reading and after every operation (generated / hand-made / corpus inputs)",
         "mutation of the classifier particle sets by formatting is not modelled (it only decides whether particles share a card)",
         "FILL with a transform / a matrix in the data block and an IMP vector with a hole are deliberate refusals (ValueError / ParticleTypeNotInCell), expected by model and oracle",
     ]
@@ -634,7 +733,7 @@ def run(chk):
 
     cases = gen_cases(chk)
     chk.exhaustive = {"flag_vectors": "all 32 for every generated problem, small shape and (thorough) fixture",
-                      "small_shapes": "6 shapes x 21 single operations x 32 flag vectors + 5 importance shapes x 21 x 8, each: flags, write, operation, write"}
+                      "small_shapes": "6 shapes x 21 single operations x 32 flag vectors + 5 importance shapes x 21 x 8 + 9 shapes with other cell parameters (every keyword of OTHER_PARAMS) x 12 operations x 8, each: flags, write, operation, write"}
     for c in cases:
         c.pop("_", None)
     all_cases = cases
@@ -651,7 +750,7 @@ def run(chk):
             texts = sorted({c["text"] for c in cases if c.get("limit", 128) == lim and c.get("src", "").split(":")[0] in ("small", "generated", "history", "corpus")})
             for t, d in zip(texts, spec.denote_many(texts, lim) if texts else []):
                 in_den[(lim, t)] = d
-        built = [build_model_case(c, r) for c, r in zip(cases, impl)]
+        built = [build_model_case(c, r, in_den.get((c.get("limit", 128), c["text"]))) for c, r in zip(cases, impl)]
         idx = [i for i, b in enumerate(built) if b is not None]
         model_out = drv.batch([built[i][0] for i in idx]) if drv.ok else None
         model = {i: model_out[k] for k, i in enumerate(idx)} if model_out is not None else {}
@@ -729,6 +828,10 @@ def run(chk):
                     chk.violation(sig, v3[2] if v3 else what, {"case": small, "written": step.get("text"), "api": step.get("api"), "raised": step["out"]})
             if i in model:
                 chk.traces_validated += 1
+                if isinstance(model[i].get("slots"), list):
+                    chk.count("slots-compared")
+                    if not all(m["imp_keys_are_imp"] for m in model[i]["slots"]):
+                        chk.count("hypothesis-impKeysAreImp-false")
                 nsteps = min(built[i][1], upto)
                 diff = compare_case(pure, ri, dens[i], model[i], nsteps)
                 if diff is not None and chk.dist.get("disagreement-confirmed", 0) >= 4:
@@ -738,7 +841,7 @@ def run(chk):
                     chk.disagreements_checked += 1
                     chk.count("disagreement:" + diff[1][:60])
                     ri2, dens2 = run_one(pure)
-                    b2 = build_model_case(pure, ri2)
+                    b2 = build_model_case(pure, ri2, in_den.get(rkey))
                     rm2 = drv.batch([b2[0]])[0] if b2 else None
                     diff2 = compare_case(pure, ri2, dens2, rm2, min(b2[1], upto)) if b2 else None
                     if diff2 is None:
@@ -750,7 +853,7 @@ def run(chk):
                         def differs(ops, pure=pure, last=pure["ops"][diff2[0]:diff2[0] + 1]):
                             c = dict(pure, ops=ops + last)
                             r, d = run_one(c)
-                            b = build_model_case(c, r)
+                            b = build_model_case(c, r, in_den.get(rkey))
                             if not b:
                                 return False
                             return compare_case(c, r, d, drv.batch([b[0]])[0], b[1]) is not None
@@ -783,7 +886,7 @@ def replay(chk, payload):
         st = ri["steps"][v[0]]
         chk.violation(v[1], v[2], {"case": case, "written": st.get("text"), "api": st.get("api"), "raised": st["out"]})
     elif drv.ok:
-        b = build_model_case(case, ri)
+        b = build_model_case(case, ri, spec.denote(case["text"], case.get("limit", 128)))
         if b:
             d = compare_case(case, ri, dens, drv.batch([b[0]])[0], b[1])
             if d is not None:
